@@ -83,7 +83,13 @@ func c18Build(imp types.Importer, fset *token.FileSet, feats []string) (out stri
 		}
 	}()
 	var errs []string
-	pkg := gogen.NewPackage("", "p", &gogen.Config{Fset: fset, Importer: imp, HandleErr: func(e error) { errs = append(errs, e.Error()) }})
+	// every package is configured with its own big-number types (distinct type objects per package)
+	bigPkg := types.NewPackage("big", "big")
+	mkBig := func(n string) *types.Named {
+		return types.NewNamed(types.NewTypeName(token.NoPos, bigPkg, n, nil), types.NewStruct(nil, nil), nil)
+	}
+	pkg := gogen.NewPackage("", "p", &gogen.Config{Fset: fset, Importer: imp, HandleErr: func(e error) { errs = append(errs, e.Error()) },
+		UntypedBigInt: mkBig("UntypedBigint"), UntypedBigRat: mkBig("UntypedBigrat"), UntypedBigFloat: mkBig("UntypedBigfloat")})
 	ti := types.Typ[types.Int]
 	pkg.NewVar(token.NoPos, ti, "x")
 	pkg.NewVar(token.NoPos, types.NewSlice(ti), "s")
@@ -131,6 +137,17 @@ func c18Build(imp types.Importer, fset *token.FileSet, feats []string) (out stri
 		case "btimethod":
 			cb.VarRef(ref("x")).Val(ref("str")).MemberVal("Len", 0).Call(0).Assign(1)
 			cb.VarRef(ref("x")).Val(ref("ch")).MemberVal("Len", 0).Call(0).Assign(1)
+		case "btiadd":
+			// this package customises ITS builtin type info of []int: v.Total() means gsum(v)
+			gs := pkg.NewFunc(nil, "gsum", types.NewTuple(types.NewParam(token.NoPos, pkg.Types, "v", types.NewSlice(ti))), types.NewTuple(types.NewParam(token.NoPos, pkg.Types, "", ti)), false)
+			gs.BodyStart(pkg).Val(0).Return(1).End()
+			pkg.BuiltinTI(types.NewSlice(ti)).AddMethods(&gogen.BuiltinMethod{Name: "Total", Fn: gs.Func})
+			cb.VarRef(ref("x")).Val(ref("s")).MemberVal("Total", 0).Call(0).Assign(1)
+		case "btiuse":
+			// another package did not: the member must be unknown here
+			kind, _ := cb.Val(ref("s")).Member("Total", 0, gogen.MemberFlagVal)
+			cb.ResetStmt()
+			cb.VarRef(ref("x")).Val(int(kind)).Assign(1)
 		case "closure":
 			cb.DefineVarStart(token.NoPos, "fn").NewClosure(nil, nil, false).BodyStart(pkg).End().EndInit(1)
 			cb.Val(cbRefLocal(cb, "fn")).Call(0).EndStmt()
@@ -348,7 +365,7 @@ func runC18(tier, replay string) {
 		run.Infra(fmt.Errorf("no program tuple generated"))
 	}
 	// ---- (a) every feature alone between two snapshots
-	feats := []string{"nil", "bool", "builtins", "iota", "blank", "rangeudt", "operators", "import", "paren", "btimethod", "closure", "lits"}
+	feats := []string{"nil", "bool", "builtins", "iota", "blank", "rangeudt", "operators", "import", "paren", "btimethod", "closure", "lits", "btiadd", "btiuse"}
 	imp, fset, err := newC18Importer()
 	if err != nil {
 		run.Infra(err)
